@@ -170,6 +170,11 @@ class Ctx:
         self.standins.append(dict(name=name, bound=bound, evaluations=evaluations,
                                   failures=len(failures) if hasattr(failures, "__len__") else int(failures)))
         nf = len(failures) if hasattr(failures, "__len__") else int(failures)
+        if nf and not detail and hasattr(failures, "__getitem__"):
+            try:
+                detail = "%d of %s evaluations fail; first: %s" % (nf, evaluations, json.dumps(failures[0], default=str)[:400])
+            except Exception:
+                detail = "%d evaluations fail" % nf
         ob = Ob(name, "standin", "proved" if nf == 0 else "failed", "runtime-contract(CPython)",
                 time_s, detail, cex=cex if cex is not None else (failures[0] if nf and hasattr(failures, "__getitem__") else None),
                 native=native if native is not None else (dict(reproduced=True) if nf else None), bounded=True)
